@@ -308,7 +308,19 @@ impl Source {
     }
 }
 
-fn jesc(s: &str) -> String { s.replace('\\', "\\\\").replace('"', "\\\"") }
+fn jesc(s: &str) -> String {
+    // JSON string escaping incl. control characters (a mutated FEN may carry NUL, TAB, CR, LF)
+    let mut o = String::new();
+    for c in s.chars() {
+        match c {
+            '\\' => o.push_str("\\\\"),
+            '"' => o.push_str("\\\""),
+            c if (c as u32) < 0x20 => o.push_str(&format!("\\u{:04x}", c as u32)),
+            c => o.push(c),
+        }
+    }
+    o
+}
 
 fn check_pos(prop: &str, focus: &str, p: &Pos, h: &ZobristHasher) -> Option<String> {
     match prop {
@@ -381,6 +393,22 @@ fn check_draw(count: u8) -> Option<String> {
     if t.is_threefold_repetition(&bb) != (count >= 2) { return Some(format!("position already seen {} times, probed with a board that carries search ordering data: is_threefold_repetition = {}", count, !(count >= 2))); }
     let got = t.is_threefold_repetition(&b);
     if got != (count >= 2) { return Some(format!("position already seen {} times: is_threefold_repetition = {}", count, got)); }
+    // remove: exact inverse of add on a present key, frame on the other keys, nothing at all on an absent key
+    if count >= 1 {
+        let mut t2 = DrawTable::new();
+        t2.table.insert(other.zobrist_key, 1);
+        for _ in 0..count { t2.add_board_to_draw_table(&b); }
+        t2.remove_board_from_draw_table(&b);
+        let left = t2.table.get(&b.zobrist_key).copied().unwrap_or(0);
+        if left != count - 1 { return Some(format!("remove after {} additions leaves count {} (expected {})", count, left, count - 1)); }
+        if t2.table.get(&other.zobrist_key) != Some(&1) { return Some("removing one position changed another position's count".into()); }
+    } else {
+        let mut t3 = DrawTable::new();
+        t3.table.insert(other.zobrist_key, 1);
+        t3.remove_board_from_draw_table(&b);
+        if t3.table.get(&b.zobrist_key).copied().unwrap_or(0) != 0 { return Some("remove of a position that never occurred created a count".into()); }
+        if t3.table.get(&other.zobrist_key) != Some(&1) { return Some("remove of a position that never occurred changed another position's count".into()); }
+    }
     t.clear();
     if !t.table.is_empty() { return Some("clear left entries behind".into()); }
     None
